@@ -319,3 +319,36 @@ class GraphSpace:
     def range(self, lo, hi):
         for k in range(lo, hi):
             yield self.at(k)
+
+
+class WeightedSpace:
+    """All matrices on n nodes whose off-diagonal cells (ordered pairs if directed, unordered otherwise) take a value in
+    (0,) + values: a complete finite space addressable by index (mixed-radix)."""
+
+    def __init__(self, specs, values):
+        self.specs = list(specs)          # (n, directed)
+        self.values = (0.0,) + tuple(float(v) for v in values)
+        self.b = len(self.values)
+        self.sizes = [self.b ** len(pairs(n, d)) for n, d in self.specs]
+        self.total = sum(self.sizes)
+
+    def describe(self):
+        return "all matrices with cell values in %s: " % (list(self.values),) + ", ".join(
+            "%s n=%d (%d)" % ("directed" if d else "symmetric", n, s) for (n, d), s in zip(self.specs, self.sizes))
+
+    def at(self, k):
+        for (n, d), s in zip(self.specs, self.sizes):
+            if k < s:
+                W = np.zeros((n, n))
+                for (i, j) in pairs(n, d):
+                    k, r = divmod(k, self.b)
+                    W[i, j] = self.values[r]
+                    if not d:
+                        W[j, i] = self.values[r]
+                return n, d, W
+            k -= s
+        raise IndexError
+
+    def range(self, lo, hi):
+        for k in range(lo, hi):
+            yield self.at(k)
